@@ -452,11 +452,22 @@ func isShortcutLinkOrImage(inline *commonmark.Inline) bool {
 // needsEscapes reports whether the link text is written differently
 // than it is in the source, so that it cannot serve as the link label.
 func needsEscapes(source []byte, link *commonmark.Inline) bool {
+	startsLine := false
 	for i, n := 0, link.ChildCount(); i < n; i++ {
 		child := link.Child(i)
 		// Everything but text is copied from the source.
 		if child.Kind() == commonmark.TextKind {
 			span := child.Span()
+			if startsLine {
+				// Digits and a delimiter at the start of a line get a backslash as well.
+				j := span.Start
+				for j < span.End && j-span.Start < maxListMarkerDigits && '0' <= source[j] && source[j] <= '9' {
+					j++
+				}
+				if j > span.Start && j < span.End && (source[j] == '.' || source[j] == ')') {
+					return true
+				}
+			}
 			for j := span.Start; j < span.End; j++ {
 				if !strings.ContainsRune(`\[]*_-+=<>&#~`+"`", rune(source[j])) {
 					continue
@@ -470,6 +481,8 @@ func needsEscapes(source []byte, link *commonmark.Inline) bool {
 				}
 			}
 		}
+		k := child.Kind()
+		startsLine = k == commonmark.SoftLineBreakKind || k == commonmark.HardLineBreakKind
 	}
 	return false
 }
